@@ -39,7 +39,9 @@ def main(argv):
     for p in props:
         cs = sorted(c for c in os.listdir(CONTROLS) if c.startswith(p + "-") and os.path.exists(os.path.join(CONTROLS, c, "patch.diff")))
         ss = sorted(s for s in os.listdir(SEEDED) if s.startswith(p + "-") and os.path.exists(os.path.join(SEEDED, s, "patch.diff")))
-        pairs += [(c, s) for c in cs for s in ss]
+        only = os.environ.get("CROSS_CONTROLS")          # e.g. "R5|R6": restrict the controls by suffix
+        if only: cs = [c for c in cs if re.search(r"-(%s)$" % only, c)]
+        pairs += [(c, s) for c in cs for s in ss if "%s+%s" % (c, s) not in json.load(open(os.path.join(CONTROLS, "cross.json"))) ] if os.environ.get("CROSS_SKIP_DONE") and os.path.exists(os.path.join(CONTROLS, "cross.json")) else [(c, s) for c in cs for s in ss]
     jp = os.path.join(CONTROLS, "cross.json")
     res = json.load(open(jp)) if os.path.exists(jp) else {}
     from concurrent.futures import ThreadPoolExecutor, as_completed
